@@ -380,6 +380,8 @@ def expr_contexts(arg: dict) -> list[dict]:
             body, skip = f"lda.w #{text}\n", 1
         elif ctx == "long24":
             body, skip = f"lda.l {text}\n", 1
+        elif ctx == "dirauto":
+            body, skip = f"lda {text}\n", 1
         elif ctx in ("dl", "dw", "db", "pointer"):
             body = f".{ctx} {text}\n"
         elif ctx == "sym":
